@@ -11,6 +11,7 @@ import (
 	"context"
 	"fmt"
 	"net"
+	"os"
 	"sort"
 	"strconv"
 	"strings"
@@ -603,6 +604,14 @@ func c10RunUDP(q c10UDPParams) (c10UDPResult, error) {
 	app.mu.Lock()
 	defer app.mu.Unlock()
 	res.clean = true
+	for _, p := range peers {
+		if p.failed {
+			res.clean = false
+		}
+	}
+	if os.Getenv("HXDBG") != "" && !res.clean {
+		fmt.Fprintf(os.Stderr, "errors: %q\nnews: %v\n", app.errAll, app.news)
+	}
 	var pb strings.Builder
 	for i, p := range peers {
 		if p.failed {
@@ -645,6 +654,9 @@ func runC10(a runArgs) error {
 	if a.tier == "thorough" {
 		runs = 200
 	}
+	if v, err := strconv.Atoi(os.Getenv("HX_C10_UDP_RUNS")); err == nil && v > 0 {
+		runs = v // development aid: stress the UDP runs
+	}
 	var plan []c10UDPParams
 	if a.only != "" {
 		if q, ok := parseC10UDP(a.only); ok {
@@ -672,6 +684,9 @@ func runC10(a runArgs) error {
 				break
 			}
 			e.Hist["rerun-after-watchdog"]++
+			if os.Getenv("HXDBG") != "" {
+				fmt.Fprintf(os.Stderr, "watchdog in %s attempt %d\n%s\n", q.desc(), attempt, res.coq)
+			}
 		}
 		for k, v := range res.classes {
 			e.Hist["adv:"+k] += v
@@ -679,6 +694,134 @@ func runC10(a runArgs) error {
 		e.Hist[fmt.Sprintf("good=%d", q.good)]++
 		e.Hist[fmt.Sprintf("bad=%d", q.bad)]++
 		e.AddW(res.coq, q.desc(), q.good >= 2 && res.errDgram > 0, 1+len(res.coq)/4000, "udp-run")
+	}
+	want := func(prefix string) (uint64, []string, bool) {
+		if a.only == "" {
+			return 0, nil, false
+		}
+		f := strings.Split(a.only, ":")
+		if f[0] != prefix {
+			return 0, nil, false
+		}
+		sd, _ := strconv.ParseUint(f[1], 10, 64)
+		return sd, f, true
+	}
+	mult := 1
+	if a.tier == "thorough" {
+		mult = 8
+	}
+	// getConnKey tables
+	if sd, _, ok := want("key"); ok {
+		coq, _ := c10KeyCase(NewRng(sd))
+		e.Add(coq, a.only, true, "key")
+	} else if a.only == "" {
+		for i := 0; i < 200*mult; i++ {
+			sd := rng.U64() % 1000000007
+			coq, _ := c10KeyCase(NewRng(sd))
+			e.AddW(coq, fmt.Sprintf("key:%d", sd), true, 0, "key")
+		}
+	}
+	// peer table operation sequences
+	tables := []uint64{}
+	if sd, _, ok := want("table"); ok {
+		tables = append(tables, sd)
+	} else if a.only == "" {
+		for i := 0; i < 16*mult; i++ {
+			tables = append(tables, rng.U64()%1000000007)
+		}
+	}
+	for _, sd := range tables {
+		coq, err := c10TableRun(sd)
+		if err != nil {
+			return err
+		}
+		e.Add(coq, fmt.Sprintf("table:%d", sd), true, "table-run")
+	}
+	// accept loops
+	type acc struct {
+		sd   uint64
+		dtls bool
+	}
+	var accs []acc
+	if sd, f, ok := want("accept"); ok {
+		accs = append(accs, acc{sd, len(f) > 2 && f[2] == "true"})
+	} else if a.only == "" {
+		for i := 0; i < 24*mult; i++ {
+			accs = append(accs, acc{rng.U64() % 1000000007, i%2 == 1})
+		}
+	}
+	for _, x := range accs {
+		coq, err := c10AcceptRun(x.sd, x.dtls)
+		if err != nil {
+			return err
+		}
+		e.Add(coq, fmt.Sprintf("accept:%d:%s", x.sd, coqBool(x.dtls)), true, "accept-run")
+	}
+	// tcp server
+	type tr struct {
+		sd         uint64
+		g, b, nreq int
+	}
+	var trs []tr
+	if sd, f, ok := want("tcp"); ok && len(f) == 5 {
+		g, _ := strconv.Atoi(f[2])
+		b, _ := strconv.Atoi(f[3])
+		n, _ := strconv.Atoi(f[4])
+		trs = append(trs, tr{sd, g, b, n})
+	} else if a.only == "" {
+		for i := 0; i < 8*mult; i++ {
+			trs = append(trs, tr{rng.U64() % 1000000007, 2 + rng.Intn(3), 2 + rng.Intn(6), 4 + rng.Intn(6)})
+		}
+	}
+	for _, x := range trs {
+		var coq string
+		for attempt := 0; attempt < 3; attempt++ {
+			c, clean, classes, err := c10TCPRun(x.sd, x.g, x.b, x.nreq)
+			if err != nil {
+				return err
+			}
+			coq = c
+			if clean {
+				for k, v := range classes {
+					e.Hist["tcp-adv:"+k] += v
+				}
+				break
+			}
+			e.Hist["rerun-after-watchdog"]++
+		}
+		e.AddW(coq, fmt.Sprintf("tcp:%d:%d:%d:%d", x.sd, x.g, x.b, x.nreq), true, 1+len(coq)/4000, "tcp-run")
+	}
+	// closed-connection replacement against the concurrent sweep
+	var races []uint64
+	if sd, _, ok := want("race"); ok {
+		races = append(races, sd)
+	} else if a.only == "" {
+		for i := 0; i < 4*mult; i++ {
+			races = append(races, rng.U64()%1000000007)
+		}
+	}
+	for _, sd := range races {
+		coq, err := c10RaceRun(sd, 600)
+		if err != nil {
+			return err
+		}
+		e.Add(coq, fmt.Sprintf("race:%d", sd), true, "race-run")
+	}
+	// discovery
+	var discs []uint64
+	if sd, _, ok := want("disc"); ok {
+		discs = append(discs, sd)
+	} else if a.only == "" {
+		for i := 0; i < 8*mult; i++ {
+			discs = append(discs, rng.U64()%1000000007)
+		}
+	}
+	for _, sd := range discs {
+		coq, err := c10DiscRun(sd)
+		if err != nil {
+			return err
+		}
+		e.AddW(coq, fmt.Sprintf("disc:%d", sd), true, 1+len(coq)/4000, "disc-run")
 	}
 	_ = context.Background
 	_ = sort.Strings
